@@ -12,7 +12,7 @@ use common::{run_proptest, Choices, Env, Mode, PartOpts, PartReport, Stats};
 use gen::wire::{self, Style};
 use proptest::prelude::*;
 use prost_reflect::ReflectMessage;
-use rand::{rngs::StdRng, Rng, SeedableRng};
+use rand::Rng;
 use serde::{Deserialize, Serialize};
 use zksync_concurrency::{limiter, time};
 use zksync_consensus_roles::{node, validator, validator::v2};
@@ -110,338 +110,7 @@ fn hex(b: &[u8]) -> String {
     if b.len() > 200 { format!("{s}…({} bytes)", b.len()) } else { s }
 }
 
-fn rng_of(ch: &mut Choices) -> StdRng {
-    StdRng::seed_from_u64(ch.u64())
-}
-
-// ---------------------------------------------------------------------------------------------
-// crafted generators (the traps named in DESIGN.md §C09); each returns (value, special?)
-
-fn g_bitvec(ch: &mut Choices) -> (BitVec, bool) {
-    let len = ch.pick(&[0usize, 1, 7, 8, 9, 15, 16, 17, 63, 64, 65, 100, 1000]);
-    let mut v = match ch.below(4) {
-        0 => BitVec::from_elem(len, false),
-        1 => BitVec::from_elem(len, true),
-        2 => {
-            // from bytes with garbage beyond `len`, then truncated
-            let bytes: Vec<u8> = (0..len.div_ceil(8) + ch.below(3)).map(|_| ch.raw() as u8).collect();
-            let mut v = BitVec::from_bytes(&bytes);
-            v.truncate(len);
-            v
-        }
-        _ => {
-            let mut v = BitVec::new();
-            for _ in 0..len {
-                v.push(ch.bool());
-            }
-            v
-        }
-    };
-    if len > 0 && ch.bool() {
-        let i = ch.below(len);
-        v.set(i, ch.bool());
-    }
-    (v, len % 8 != 0)
-}
-
-fn g_duration(ch: &mut Choices) -> (time::Duration, bool) {
-    let secs = match ch.below(8) {
-        0 => 0,
-        1 => ch.range(0, 10) as i64,
-        2 => -(ch.range(0, 10) as i64),
-        3 => i64::MAX - ch.range(0, 2) as i64,
-        4 => i64::MIN + 1 + ch.range(0, 2) as i64,
-        5 => ch.u64() as i64 >> ch.below(40),
-        6 => 1_000_000_000 * ch.range(0, 9) as i64,
-        _ => -(1i64 << ch.below(62)),
-    };
-    let nanos = match ch.below(6) {
-        0 => 0,
-        1 => 1,
-        2 => 999_999_999,
-        3 => ch.range(0, 999_999_999) as i32,
-        4 => 500_000_000,
-        _ => ch.range(0, 1000) as i32,
-    };
-    // Compose without overflowing: sign of nanos follows seconds.
-    let d = if secs >= 0 {
-        if secs == i64::MAX { time::Duration::new(secs, nanos) } else { time::Duration::new(secs, nanos) }
-    } else {
-        time::Duration::new(secs, -nanos)
-    };
-    // The statement quantifies over durations whose second count is above i64::MIN.
-    let d = if d.whole_seconds() == i64::MIN { time::Duration::new(i64::MIN + 1, -nanos) } else { d };
-    (d, d.is_negative() || d.subsec_nanoseconds() != 0)
-}
-
-fn g_utc(ch: &mut Choices) -> (time::Utc, bool) {
-    let (d, s) = g_duration(ch);
-    (time::UNIX_EPOCH + d, s)
-}
-
-fn g_addr(ch: &mut Choices) -> (std::net::SocketAddr, bool) {
-    use std::net::*;
-    let port = ch.pick(&[0u16, 1, 80, 3054, 65535, 32768]);
-    let b = |ch: &mut Choices| ch.pick(&[0u8, 1, 127, 128, 255, 10, 192]);
-    let ip = match ch.below(5) {
-        0 => IpAddr::V4(Ipv4Addr::new(b(ch), b(ch), b(ch), b(ch))),
-        1 => IpAddr::V6(Ipv4Addr::new(b(ch), b(ch), b(ch), b(ch)).to_ipv6_mapped()),
-        2 => IpAddr::V6(Ipv6Addr::UNSPECIFIED),
-        3 => IpAddr::V6(Ipv6Addr::LOCALHOST),
-        _ => {
-            let o: [u8; 16] = std::array::from_fn(|_| ch.raw() as u8);
-            IpAddr::V6(Ipv6Addr::from(o))
-        }
-    };
-    (SocketAddr::new(ip, port), matches!(ip, IpAddr::V6(v) if v.to_ipv4_mapped().is_some()))
-}
-
-fn g_rate(ch: &mut Choices) -> (limiter::Rate, bool) {
-    let (d, s) = g_duration(ch);
-    (limiter::Rate { burst: ch.pick(&[0usize, 1, 10, usize::MAX, 1 << 40]), refresh: d }, s)
-}
-
-fn u64x(ch: &mut Choices) -> u64 {
-    match ch.below(6) {
-        0 => 0,
-        1 => 1,
-        2 => u64::MAX,
-        3 => u64::MAX - 1,
-        4 => 1u64 << ch.below(64),
-        _ => ch.u64(),
-    }
-}
-
-fn g_view(ch: &mut Choices) -> v2::View {
-    v2::View {
-        genesis: rng_of(ch).gen(),
-        epoch: validator::EpochNumber(u64x(ch)),
-        number: validator::ViewNumber(u64x(ch)),
-    }
-}
-
-fn g_header(ch: &mut Choices) -> v2::BlockHeader {
-    v2::BlockHeader {
-        number: validator::BlockNumber(u64x(ch)),
-        payload: validator::Payload(vec![ch.raw() as u8; ch.below(3)]).hash(),
-    }
-}
-
-fn g_commit(ch: &mut Choices) -> v2::ReplicaCommit {
-    v2::ReplicaCommit { view: g_view(ch), proposal: g_header(ch) }
-}
-
-/// Real signatures (decoding validates group membership).
-fn sig_pool() -> &'static [validator::Signature] {
-    static P: std::sync::OnceLock<Vec<validator::Signature>> = std::sync::OnceLock::new();
-    P.get_or_init(|| {
-        let m = validator::Payload(vec![1, 2, 3]);
-        (0..16)
-            .map(|i| gen::val_keys()[i].sign_hash(&validator::Msg::SessionId(node::SessionId(vec![i as u8; 3 + i])).hash()))
-            .chain(std::iter::once(gen::val_keys()[0].sign_hash(&validator::Msg::SessionId(node::SessionId(m.0.clone())).hash())))
-            .collect()
-    })
-}
-
-fn g_agg(ch: &mut Choices) -> validator::AggregateSignature {
-    let k = ch.below(4);
-    let mut a = validator::AggregateSignature::default();
-    for _ in 0..k {
-        a.add(&ch.pick(sig_pool()));
-    }
-    a
-}
-
-fn g_commit_qc(ch: &mut Choices) -> (v2::CommitQC, bool) {
-    let (bv, s) = g_bitvec(ch);
-    (v2::CommitQC { message: g_commit(ch), signers: v2::Signers(bv), signature: g_agg(ch) }, s)
-}
-
-fn g_timeout(ch: &mut Choices) -> (v2::ReplicaTimeout, bool) {
-    let mut s = false;
-    let high_qc = ch.bool().then(|| {
-        let (q, sp) = g_commit_qc(ch);
-        s |= sp;
-        q
-    });
-    (v2::ReplicaTimeout { view: g_view(ch), high_vote: ch.bool().then(|| g_commit(ch)), high_qc }, s)
-}
-
-fn g_timeout_qc(ch: &mut Choices) -> (v2::TimeoutQC, bool) {
-    let k = ch.below(5);
-    let mut groups = vec![];
-    let mut s = false;
-    for _ in 0..k {
-        let (m, sp) = g_timeout(ch);
-        let (bv, sp2) = g_bitvec(ch);
-        s |= sp | sp2;
-        groups.push((m, v2::Signers(bv)));
-    }
-    // every insertion order of the same groups gives the same value; pick one
-    let order = ch.perm(groups.len());
-    let mut map = std::collections::BTreeMap::new();
-    for i in order {
-        map.insert(groups[i].0.clone(), groups[i].1.clone());
-    }
-    (v2::TimeoutQC { view: g_view(ch), map, signature: g_agg(ch) }, s || k >= 2)
-}
-
-fn g_just(ch: &mut Choices) -> (v2::ProposalJustification, bool) {
-    if ch.bool() {
-        let (q, s) = g_commit_qc(ch);
-        (v2::ProposalJustification::Commit(q), s)
-    } else {
-        let (q, s) = g_timeout_qc(ch);
-        (v2::ProposalJustification::Timeout(q), s)
-    }
-}
-
-fn g_payload(ch: &mut Choices) -> validator::Payload {
-    let len = ch.pick(&[0usize, 1, 2, 127, 128, 129, 300, 20000]);
-    validator::Payload((0..len).map(|i| (i as u8) ^ (ch.raw() as u8 & 1)).collect())
-}
-
-fn g_proposal(ch: &mut Choices) -> (v2::LeaderProposal, bool) {
-    let (j, s) = g_just(ch);
-    // `Some(empty payload)` and `None` are different values and must stay different
-    let proposal_payload = match ch.below(3) {
-        0 => None,
-        1 => Some(validator::Payload(vec![])),
-        _ => Some(g_payload(ch)),
-    };
-    let special = matches!(&proposal_payload, Some(p) if p.0.is_empty());
-    (v2::LeaderProposal { proposal_payload, justification: j }, s || special)
-}
-
-fn g_chonky(ch: &mut Choices) -> (v2::ChonkyMsg, bool) {
-    match ch.below(4) {
-        0 => {
-            let (p, s) = g_proposal(ch);
-            (v2::ChonkyMsg::LeaderProposal(p), s)
-        }
-        1 => (v2::ChonkyMsg::ReplicaCommit(g_commit(ch)), false),
-        2 => {
-            let (j, s) = g_just(ch);
-            (v2::ChonkyMsg::ReplicaNewView(v2::ReplicaNewView { justification: j }), s)
-        }
-        _ => {
-            let (t, s) = g_timeout(ch);
-            (v2::ChonkyMsg::ReplicaTimeout(t), s)
-        }
-    }
-}
-
-fn g_net_address(ch: &mut Choices) -> (validator::NetAddress, bool) {
-    let (addr, s1) = g_addr(ch);
-    let (timestamp, s2) = g_utc(ch);
-    (validator::NetAddress { addr, version: u64x(ch), timestamp }, s1 || s2)
-}
-
-fn g_msg(ch: &mut Choices) -> (validator::Msg, bool) {
-    match ch.below(3) {
-        0 => {
-            let (m, s) = g_chonky(ch);
-            (validator::Msg::Consensus(validator::ConsensusMsg::V2(m)), s)
-        }
-        1 => (validator::Msg::SessionId(node::SessionId(vec![ch.raw() as u8; ch.below(40)])), false),
-        _ => {
-            let (a, s) = g_net_address(ch);
-            (validator::Msg::NetAddress(a), s)
-        }
-    }
-}
-
-fn g_signed(ch: &mut Choices) -> (validator::Signed<validator::ConsensusMsg>, bool) {
-    let (msg, s) = g_chonky(ch);
-    let msg = validator::ConsensusMsg::V2(msg);
-    (validator::Signed { msg, key: gen::val_keys()[ch.below(gen::POOL)].public(), sig: ch.pick(sig_pool()) }, s)
-}
-
-fn g_signed_addr(ch: &mut Choices) -> (validator::Signed<validator::NetAddress>, bool) {
-    let (msg, s) = g_net_address(ch);
-    (validator::Signed { msg, key: gen::val_keys()[ch.below(gen::POOL)].public(), sig: ch.pick(sig_pool()) }, s)
-}
-
-fn g_schedule(ch: &mut Choices) -> (validator::Schedule, bool) {
-    let n = 1 + ch.below(12);
-    let ids = ch.perm(gen::POOL);
-    let mut infos: Vec<_> = (0..n)
-        .map(|i| validator::ValidatorInfo {
-            key: gen::val_keys()[ids[i]].public(),
-            weight: match ch.below(3) {
-                0 => 1,
-                1 => 1 + ch.below(100) as u64,
-                _ => 1u64 << ch.below(59),
-            },
-            leader: ch.bool(),
-        })
-        .collect();
-    infos[0].leader = true;
-    let sel = validator::LeaderSelection {
-        frequency: u64x(ch),
-        mode: if ch.bool() { validator::LeaderSelectionMode::Weighted } else { validator::LeaderSelectionMode::RoundRobin },
-    };
-    (validator::Schedule::new(infos, sel).unwrap(), n >= 2)
-}
-
-fn g_genesis_raw(ch: &mut Choices) -> (validator::GenesisRaw, bool) {
-    let sched = ch.chance(3, 4).then(|| g_schedule(ch));
-    let s = sched.as_ref().is_some_and(|x| x.1);
-    (
-        validator::GenesisRaw {
-            chain_id: validator::ChainId(u64x(ch)),
-            fork_number: validator::ForkNumber(u64x(ch)),
-            protocol_version: validator::ProtocolVersion::CURRENT,
-            first_block: validator::BlockNumber(u64x(ch)),
-            validators_schedule: sched.map(|x| x.0),
-        },
-        s,
-    )
-}
-
-fn g_state(ch: &mut Choices) -> (validator::ReplicaState, bool) {
-    let mut s = false;
-    let high_commit_qc = ch.bool().then(|| {
-        let (q, sp) = g_commit_qc(ch);
-        s |= sp;
-        q
-    });
-    let high_timeout_qc = ch.bool().then(|| {
-        let (q, sp) = g_timeout_qc(ch);
-        s |= sp;
-        q
-    });
-    let np = ch.below(4);
-    let proposals: Vec<_> = (0..np).map(|_| validator::Proposal { number: validator::BlockNumber(u64x(ch)), payload: g_payload(ch) }).collect();
-    (
-        validator::ReplicaState::V2(v2::ChonkyV2State {
-            epoch: validator::EpochNumber(u64x(ch)),
-            view_number: validator::ViewNumber(u64x(ch)),
-            phase: ch.pick(&[v2::Phase::Prepare, v2::Phase::Commit, v2::Phase::Timeout]),
-            high_vote: ch.bool().then(|| g_commit(ch)),
-            high_commit_qc,
-            high_timeout_qc,
-            proposals,
-        }),
-        s || np >= 2,
-    )
-}
-
-fn g_block(ch: &mut Choices) -> (validator::Block, bool) {
-    if ch.bool() {
-        let (q, s) = g_commit_qc(ch);
-        (validator::Block::FinalV2(v2::FinalBlock { payload: g_payload(ch), justification: q }), s)
-    } else {
-        (
-            validator::Block::PreGenesis(validator::PreGenesisBlock {
-                number: validator::BlockNumber(u64x(ch)),
-                payload: g_payload(ch),
-                justification: validator::Justification(vec![7; ch.below(5)]),
-            }),
-            false,
-        )
-    }
-}
+use gen::values::*;
 
 // ---------------------------------------------------------------------------------------------
 // type table
